@@ -38,6 +38,21 @@ def cmp : Str → Str → Int
   | _ :: _, [] => 1
   | x :: xs, y :: ys => if x < y then -1 else if x > y then 1 else cmp xs ys
 
+/-- the value of a 32-bit pattern read as a two's-complement number: how `char_traits<wchar_t>::lt` sees a code unit on
+    a target whose `wchar_t` is a signed 32-bit type -/
+def signed32 (u : Nat) : Int := if u < 2147483648 then (u : Int) else (u : Int) - 4294967296
+
+/-- `cmp` with the code units ordered by their signed 32-bit value ([string.view.ops] compare for `wchar_t` here) -/
+def cmpSigned : Str → Str → Int
+  | [], [] => 0
+  | [], _ :: _ => -1
+  | _ :: _, [] => 1
+  | x :: xs, y :: ys => if signed32 x < signed32 y then -1 else if signed32 x > signed32 y then 1 else cmpSigned xs ys
+
+/-- order isomorphism from the signed order of 32-bit patterns to the natural order (`cmpSigned_eq_cmp_key`): the
+    drivers evaluate the comparison lines of wide strings on the images of both operands under this map -/
+def signedKey32 (u : Nat) : Nat := (u + 2147483648) % 4294967296
+
 def substr (h : Str) (pos count : Nat) : Str := (h.drop pos).take count
 
 def startsWith (h n : Str) : Bool := n.isPrefixOf h
